@@ -207,6 +207,7 @@ pub async fn scenario(line: &str) -> String {
     "peerclose" => peerclose(&p).await,
     "bystander" => bystander(&p).await,
     "subhist" => subhist(&p).await,
+    "comeback" => comeback(&p).await,
     "routerframes" => routerframes(&p).await,
     "errclose" => errclose(&p).await,
     "routerlate" => routerlate(&p).await,
@@ -3016,6 +3017,91 @@ async fn routerframes(p: &[&str]) -> String {
   let _ = tokio::time::timeout(Duration::from_secs(3), router.close()).await;
   let _ = tokio::time::timeout(Duration::from_secs(12), ctx.term()).await;
   "routerframes=ok".into()
+}
+
+/// `comeback <tcp|ipc> <sender also binds 0|1> <reconnect ivl ms>`
+/// A DEALER connects to a ROUTER and they exchange a message. The ROUTER is closed (the established connection is lost) and
+/// a new ROUTER binds the same address. The DEALER - which may also own an idle listener of its own - has to reconnect by
+/// itself and traffic has to resume within a few retry intervals.
+async fn comeback(p: &[&str]) -> String {
+  let transport = p[1];
+  let bind_too = p[2] == "1";
+  let ivl: i32 = p[3].parse().unwrap();
+  let ctx = Context::new().expect("ctx");
+  let ep = if transport == "tcp" {
+    let l = std::net::TcpListener::bind("127.0.0.1:0").unwrap();
+    let a = l.local_addr().unwrap();
+    drop(l);
+    format!("tcp://{}", a)
+  } else {
+    format!("ipc:///tmp/{}.sock", unique_name("rzmq-verif-cb"))
+  };
+  let router = ctx.socket(SocketType::Router).unwrap();
+  let _ = set_i32(&router, o::RCVTIMEO, 2000).await;
+  if router.bind(&ep).await.is_err() {
+    return "setup-error bind".into();
+  }
+  let dealer = ctx.socket(SocketType::Dealer).unwrap();
+  let _ = set_i32(&dealer, o::RECONNECT_IVL, ivl).await;
+  let _ = set_i32(&dealer, o::RECONNECT_IVL_MAX, ivl * 2).await;
+  let _ = set_i32(&dealer, o::SNDTIMEO, 100).await;
+  if bind_too {
+    let own = if transport == "tcp" { "tcp://127.0.0.1:0".to_string() } else { format!("ipc:///tmp/{}.sock", unique_name("rzmq-verif-cb-own")) };
+    if dealer.bind(&own).await.is_err() {
+      return "setup-error own-bind".into();
+    }
+  }
+  if dealer.connect(&ep).await.is_err() {
+    return "setup-error connect".into();
+  }
+  let mut first = false;
+  for _ in 0..60 {
+    if dealer.send(Msg::from_static(b"one")).await.is_ok() {
+      first = true;
+      break;
+    }
+    tokio::time::sleep(Duration::from_millis(25)).await;
+  }
+  if !first || router.recv_multipart().await.is_err() {
+    return "setup-error first-exchange".into();
+  }
+  // the peer goes away and comes back on the same address
+  let _ = tokio::time::timeout(Duration::from_secs(3), router.close()).await;
+  tokio::time::sleep(Duration::from_millis(100)).await;
+  let router2 = ctx.socket(SocketType::Router).unwrap();
+  let _ = set_i32(&router2, o::RCVTIMEO, 200).await;
+  let mut bound = false;
+  for _ in 0..40 {
+    if router2.bind(&ep).await.is_ok() {
+      bound = true;
+      break;
+    }
+    tokio::time::sleep(Duration::from_millis(50)).await;
+  }
+  if !bound {
+    return "setup-error re-bind".into();
+  }
+  let deadline = Instant::now() + Duration::from_millis(8 * ivl as u64 + 3000);
+  let mut resumed = false;
+  while Instant::now() < deadline && !resumed {
+    let _ = dealer.send(Msg::from_static(b"two")).await;
+    if router2.recv_multipart().await.is_ok() {
+      resumed = true;
+    }
+  }
+  let _ = tokio::time::timeout(Duration::from_secs(3), dealer.close()).await;
+  let _ = tokio::time::timeout(Duration::from_secs(3), router2.close()).await;
+  let _ = tokio::time::timeout(Duration::from_secs(12), ctx.term()).await;
+  if resumed {
+    "comeback=ok".into()
+  } else {
+    format!(
+      "ORACLE-FAIL key=no-reconnect the peer went away and came back on the same address; {} ms later (RECONNECT_IVL {} ms) the {}DEALER has not resumed traffic",
+      8 * ivl as u64 + 3000,
+      ivl,
+      if bind_too { "(also listening) " } else { "" }
+    )
+  }
 }
 
 /// `subhist <tcp|inproc> <history> <probe topics>`
